@@ -555,3 +555,43 @@ def fixed_cases():
                       "steps": [{"kind": "float_like", "pairs": [[kin, t]], "pass_as": "dict"},
                                 {"kind": "float_like", "pairs": [["phi_0", FLOAT_LIKE[(i + 1) % 5]]], "pass_as": "dict"}]})
     return cases
+
+
+# ---------------------------------------------------------------- equality up to SymPy's evaluation order
+def same_value(e1, e2, rng, tries=60, need=4, rtol=1e-8):
+    """e1 and e2 are two SymPy forms of what should be ONE expression, built along different
+    routes (xreplace of the unfolded expression vs unfolding of the xreplaced attributes).
+    SymPy's automatic evaluation is not confluent (a merge like m_12 := m_R makes s - m_R**2
+    cancel, after which a sign ends up inside or outside a Mul depending on the route), so
+    structural inequality alone proves nothing.  Decide by value: same free symbols and equal
+    values (relative 1e-8; the operations are the same up to re-association) at `need` random
+    points where both are finite.  -> True / False / None (undecided: no finite point found)."""
+    import numpy as np
+
+    if e1 == e2:
+        return True
+    d1, d2 = e1.doit(), e2.doit()
+    if d1 == d2:
+        return True
+    args = sorted(d1.free_symbols | d2.free_symbols, key=lambda s: (s.name, str(sorted(s.assumptions0.items()))))
+    if not all(isinstance(s, sp.Symbol) for s in args):
+        return None
+    f1 = sp.lambdify(args, d1, "numpy", cse=True, dummify=True)
+    f2 = sp.lambdify(args, d2, "numpy", cse=True, dummify=True)
+    good = 0
+    for _ in range(tries):
+        vals = [np.float64(rng.uniform(0.3, 2.5)) for _ in args]
+        try:
+            v1, v2 = complex(f1(*vals)), complex(f2(*vals))
+        except (ZeroDivisionError, FloatingPointError, OverflowError):
+            continue
+        if not (np.isfinite(v1) and np.isfinite(v2)):
+            if np.isfinite(v1) != np.isfinite(v2):
+                return False
+            continue
+        if abs(v1 - v2) > rtol * max(abs(v1), abs(v2), 1e-300):
+            return False
+        good += 1
+        if good >= need:
+            return True
+    return None
